@@ -8,6 +8,7 @@ import (
 	"sort"
 	"strconv"
 	"strings"
+	"sync"
 	"testing"
 	"time"
 
@@ -695,4 +696,96 @@ func sameFloat(a, b float64) bool {
 		return true
 	}
 	return math.Abs(a-b) <= 4e-16*math.Max(math.Abs(a), math.Abs(b))
+}
+
+// TestConcurrentRelayFlushes: gostatsd flushes every aggregator on its own goroutine, so one backend instance serves
+// several SendMetricsAsync calls at the same time, each with its own map. Two to four such flushes, each larger than one
+// datagram, run concurrently against one statsd relay client; what arrives must be every line of every flush exactly
+// once (parsed back with gostatsd's own lexer and summed).
+func TestConcurrentRelayFlushes(t *testing.T) {
+	rapid.Check(t, func(t *rapid.T) {
+		name := rapid.SampledFrom([]string{"statsdaemon/udp", "statsdaemon/udp", "statsdaemon/tcp"}).Draw(t, "variant")
+		kit, err := bk.New(variant(name), bk.Options{})
+		if err != nil {
+			t.Fatalf("%v", err)
+		}
+		defer kit.Close()
+		flushes := rapid.IntRange(2, 4).Draw(t, "concurrent-flushes")
+		want := model.Agg{}
+		lines := 0
+		var maps []*gostatsd.MetricMap
+		for f := 0; f < flushes; f++ {
+			n := rapid.IntRange(60, 220).Draw(t, "series")
+			mm := gostatsd.NewMetricMap(false)
+			for i := 0; i < n; i++ {
+				nm := fmt.Sprintf("flush%d.requests.handled.%03d", f, i)
+				tags := gostatsd.Tags{fmt.Sprintf("shard:%d", f), "service:checkout"}
+				if i%2 == 0 {
+					mm.Receive(&gostatsd.Metric{Name: nm, Type: gostatsd.COUNTER, Value: float64(1000*f + i), Rate: 1, Tags: tags.Copy(), Timestamp: 1})
+					want.AddCounter(model.MakeKey(gostatsd.COUNTER, nm, tags, ""), int64(1000*f+i), 1)
+				} else {
+					mm.Receive(&gostatsd.Metric{Name: nm, Type: gostatsd.GAUGE, Value: float64(i) + 0.5, Rate: 1, Tags: tags.Copy(), Timestamp: 1})
+					want.AddGauge(model.MakeKey(gostatsd.GAUGE, nm, tags, ""), float64(i)+0.5, 1)
+				}
+				lines++
+			}
+			maps = append(maps, mm)
+		}
+		var wg sync.WaitGroup
+		errCh := make(chan string, flushes)
+		start := make(chan struct{})
+		for _, mm := range maps {
+			wg.Add(1)
+			go func(mm *gostatsd.MetricMap) {
+				defer wg.Done()
+				<-start
+				done := make(chan []error, 2)
+				kit.Backend.SendMetricsAsync(context.Background(), mm, func(errs []error) { done <- errs })
+				select {
+				case errs := <-done:
+					for _, e := range errs {
+						if e != nil {
+							errCh <- e.Error()
+						}
+					}
+				case <-time.After(30 * time.Second):
+					errCh <- "no callback within 30s"
+				}
+			}(mm)
+		}
+		close(start)
+		wg.Wait()
+		select {
+		case e := <-errCh:
+			vt.Fail(t, "C17:send-error:"+name, "%s with %d concurrent flushes: %s", name, flushes, e)
+		default:
+		}
+		desc := fmt.Sprintf("%s, %d concurrent flushes, %d lines", name, flushes, lines)
+		if kit.Variant.Socket != "udp" {
+			kit.Stop()
+			if !kit.Loop.WaitEOF(30 * time.Second) {
+				vt.Fail(t, "C17:relay-roundtrip", "the relay's connection was not closed within 30s after the backend stopped (%s)", desc)
+			}
+		}
+		deadline := time.Now().Add(30 * time.Second)
+		var got model.Agg
+		for {
+			got = relayAgg(t, kit.Loop.Snapshot(), kit.Variant.Socket == "udp", desc)
+			n := 0
+			for _, s := range got {
+				n += s.N
+			}
+			if n >= lines || time.Now().After(deadline) {
+				break
+			}
+			time.Sleep(time.Millisecond)
+		}
+		if d := model.Diff(got, want, model.Opts{IgnoreTimestamps: true, SampledTol: 1e-9}); d != "" {
+			vt.Fail(t, "C17:relay-roundtrip", "concurrent flushes through one relay client: what arrived differs from the flushes' own lines: %s (%s)", d, desc)
+		}
+		ev.C().Case(fmt.Sprintf("X|%s|%d|%d", name, flushes, lines), true, "relay-concurrent-flushes", "relay-"+kit.Variant.Socket)
+		if ev.C().WantSample() {
+			ev.C().Sample(map[string]interface{}{"variant": name, "concurrent_flushes": flushes, "lines": lines})
+		}
+	})
 }
